@@ -83,7 +83,8 @@ class Database:
 
     @property
     def alias(self):
-        return self.data.setdefault('alias', {})
+        # Read only: do not add an "alias" entry to the source dictionary.
+        return self.data.get('alias', {})
 
     @property
     def dataset_names(self):
